@@ -50,6 +50,12 @@ pub struct DictOpts {
     pub anchor_pos: usize,
     /// no entry carries the symbol POS 補助記号,一般,*,*,*,* (pool[2]); configurations must then name another OOV POS
     pub no_symbol_pos: bool,
+    /// some two-unit compounds declare ONE B unit (an entry with the compound's own key): legal, compiled as is;
+    /// outside C09's "two or more units / none" cases, so only monitors that do not compare split routes use it
+    pub single_unit_splits: bool,
+    /// every other user lexicon uses parts of speech of the system dictionary only (its compiled image then has an
+    /// empty POS block, as the dictionaries of the first user-dictionary format had none at all)
+    pub system_pos_user_layers: bool,
 }
 
 impl Default for DictOpts {
@@ -69,6 +75,8 @@ impl Default for DictOpts {
             loose_compounds: false,
             anchor_pos: 3,
             no_symbol_pos: false,
+            single_unit_splits: false,
+            system_pos_user_layers: false,
         }
     }
 }
@@ -259,7 +267,17 @@ pub fn add_compounds(rng: &mut Rng, lex: &mut Lexicon, system: Option<&Lexicon>,
             let mref = Ref { dic, row: lex.entries.len() - 1, inline: false };
             b_units.splice(at..at + 2, [mref]);
         }
-        match rng.below(6) {
+        let mut single = false;
+        if opts.single_unit_splits && units.len() == 2 && rng.chance(1, 2) {
+            let mut me = Entry::simple(&key, rng.range(0, nid - 1) as i16, rng.range(0, nid - 1) as i16, rng.range(0, 3000) as i16, rng.pick(&pool));
+            me.mode = "B";
+            me.split_a = units.clone();
+            let dic = if lex.user { 1 } else { 0 };
+            lex.entries.push(me);
+            b_units = vec![Ref { dic, row: lex.entries.len() - 1, inline: false }];
+            single = true;
+        }
+        match if single { 5 } else { rng.below(6) } {
             0 => {
                 e.split_a = units.clone();
             }
@@ -346,6 +364,11 @@ pub fn resolve_inline_model(lex: &Lexicon, system: Option<&Lexicon>, r: &Ref) ->
 pub fn gen_user(rng: &mut Rng, opts: &DictOpts, m: &Matrix, system: &Lexicon, layer: usize) -> Lexicon {
     let mut pool = user_pos_pool();
     pool.extend(pos_pool().into_iter().take(4));
+    let system_only = opts.system_pos_user_layers && rng.chance(1, 2);
+    if system_only {
+        // the anchor entries guarantee that the system dictionary declares these
+        pool = pos_pool().into_iter().take(opts.anchor_pos.max(1)).collect();
+    }
     let nid = m.nid() as i64;
     let n = 1 + rng.below(opts.max_entries.min(12));
     let mut lex = Lexicon { entries: Vec::new(), user: true };
@@ -371,6 +394,14 @@ pub fn gen_user(rng: &mut Rng, opts: &DictOpts, m: &Matrix, system: &Lexicon, la
     }
     if opts.splits {
         add_compounds(rng, &mut lex, Some(system), opts, m);
+        if system_only {
+            for e in lex.entries.iter_mut() {
+                if !pool.contains(&e.pos) {
+                    e.pos = pool[0].clone();
+                }
+            }
+            fix_inline(&mut lex, Some(system));
+        }
     }
     lex
 }
